@@ -51,7 +51,7 @@ Print Assumptions C05_legacy_digest.
 (* input index out of range, or SINGLE without a matching output: the constant 1 << 248, in the
    library (no hypothesis needed) and in the specification (uint256 one) *)
 Theorem C05_legacy_single_out_of_range : forall hash256 t idx code ht cb ct,
-  ((length (t_ins t) <= idx)%nat \/ (ht_base ht = 3 /\ (length (t_outs t) <= idx)%nat) ->
+  ((length (t_ins t) <= idx)%nat \/ (ht_base5 ht = 3 /\ (length (t_outs t) <= idx)%nat) ->
    legacy_preimage t idx code ht = Ok None) /\
   ((length (ct_vin ct) <= idx)%nat \/
    (Legacy.hash_single ht = true /\ (length (ct_vout ct) <= idx)%nat) ->
@@ -661,41 +661,56 @@ Theorem C05_op_checksigadd_scriptpath_spec :
 Proof. exact op_checksigadd_scriptpath_spec. Qed.
 Print Assumptions C05_op_checksigadd_scriptpath_spec.
 
-(* ---------------- (7) where the library leaves the standards (outside the quantifier) ---------- *)
+(* ---------------- (7) ill-formed taproot signatures, non-standard hash types ---------- *)
 
-(* BIP341: a 65-byte signature with hash type byte 0x00 is invalid.  The op codes (for ANY verdict
-   record) treat it exactly like the 64-byte signature it extends.  Replayed on the implementation:
-   Tx.verify_input accepts the key-path witness [sig64 || 00]. *)
-Theorem C05_schnorr_explicit_default_refuted : forall so pk s64 r,
+(* BIP341's signature validation rule at the op codes.  Formerly refuted (C05_schnorr_explicit_default_refuted,
+   C05_schnorr_overlong_refuted: a 65-byte signature ending in 00, and a signature followed by junk
+   bytes, got the verdict of the 64-byte signature they extend); repaired in /repo by 746b81a.  Now:
+   the form test of the op codes IS the rule of BIP341, and every non-empty ill-formed signature
+   makes OP_CHECKSIG / OP_CHECKSIGADD fail, for ANY verdict record *)
+Theorem C05_schnorr_form_is_bip341 : forall sg,
+  schnorr_form_ok sg = match taproot_sig_hash_type sg with Some _ => true | None => false end.
+Proof. exact schnorr_form_ok_bip341. Qed.
+Print Assumptions C05_schnorr_form_is_bip341.
+
+Theorem C05_schnorr_ill_formed_rejected : forall so pk sg r,
+  sg <> [] -> taproot_sig_hash_type sg = None ->
+  op_checksig_schnorr so (pk :: sg :: r) = Err /\
+  forall en, op_checksigadd_schnorr so (pk :: en :: sg :: r) = Err.
+Proof. exact op_schnorr_bad_form. Qed.
+Print Assumptions C05_schnorr_ill_formed_rejected.
+
+Theorem C05_schnorr_explicit_default_rejected : forall so pk s64 r,
   length s64 = 64%nat ->
   taproot_sig_hash_type (s64 ++ [0]) = None /\
   taproot_sig_hash_type s64 = Some (s64, 0) /\
-  op_checksig_schnorr so (pk :: (s64 ++ [0]) :: r) = op_checksig_schnorr so (pk :: s64 :: r) /\
-  forall en, op_checksigadd_schnorr so (pk :: en :: (s64 ++ [0]) :: r) =
-             op_checksigadd_schnorr so (pk :: en :: s64 :: r).
-Proof. exact schnorr_explicit_default. Qed.
-Print Assumptions C05_schnorr_explicit_default_refuted.
+  op_checksig_schnorr so (pk :: (s64 ++ [0]) :: r) = Err /\
+  forall en, op_checksigadd_schnorr so (pk :: en :: (s64 ++ [0]) :: r) = Err.
+Proof. exact schnorr_explicit_default_rejected. Qed.
+Print Assumptions C05_schnorr_explicit_default_rejected.
 
-(* BIP341: a signature of any length other than 64 / 65 is invalid.  With the primitives of
-   buidl/pecc.py a signature followed by two or more arbitrary bytes gets the verdict of the
-   signature itself (hash type SIGHASH_DEFAULT; SchnorrSignature.parse reads 64 bytes).  Replayed:
-   verify_input accepts [sig64 || 2 or 10 junk bytes]. *)
-Theorem C05_schnorr_overlong_refuted :
-  forall hash256 sha256 hash_tapsighash hash_tapleaf xonly_ok C hm fuel t sp idx m pk s64 extra r,
+Theorem C05_schnorr_overlong_rejected : forall so pk s64 extra r,
   length s64 = 64%nat -> (2 <= length extra)%nat ->
   taproot_sig_hash_type (s64 ++ extra) = None /\
-  op_checksig_schnorr
-    (tx_sigops hash256 sha256 hash_tapsighash hash_tapleaf xonly_ok (pecc_prims C hm sha256 fuel) t sp idx m)
-    (pk :: (s64 ++ extra) :: r) =
-  op_checksig_schnorr
-    (tx_sigops hash256 sha256 hash_tapsighash hash_tapleaf xonly_ok (pecc_prims C hm sha256 fuel) t sp idx m)
-    (pk :: s64 :: r).
-Proof. exact schnorr_overlong. Qed.
-Print Assumptions C05_schnorr_overlong_refuted.
+  op_checksig_schnorr so (pk :: (s64 ++ extra) :: r) = Err /\
+  forall en, op_checksigadd_schnorr so (pk :: en :: (s64 ++ extra) :: r) = Err.
+Proof. exact schnorr_overlong_rejected. Qed.
+Print Assumptions C05_schnorr_overlong_rejected.
 
-(* BIP341 defines no message for a hash type outside 00 01 02 03 81 82 83; sig_hash_bip341 builds one
-   (witness: hash type 0x04).  Replayed: verify_input accepts 65-byte signatures with hash types
-   04, 80, 84, ff made over the library's own digest. *)
+(* a 65-byte signature whose last byte is not one of 01 02 03 81 82 83 (04, 80, ff, ...): rejected,
+   so the op codes never ask Tx.sig_hash_bip341 for a hash type BIP341 does not define *)
+Theorem C05_schnorr_undefined_hash_type_rejected : forall so pk s64 ht r,
+  length s64 = 64%nat -> taproot_explicit_hash_type ht = false ->
+  taproot_sig_hash_type (s64 ++ [ht]) = None /\
+  op_checksig_schnorr so (pk :: (s64 ++ [ht]) :: r) = Err /\
+  forall en, op_checksigadd_schnorr so (pk :: en :: (s64 ++ [ht]) :: r) = Err.
+Proof. exact schnorr_undefined_hash_type_rejected. Qed.
+Print Assumptions C05_schnorr_undefined_hash_type_rejected.
+
+(* BIP341 defines no message for a hash type outside 00 01 02 03 81 82 83; the BUILDER
+   Tx.sig_hash_bip341 called directly still produces one (witness: hash type 0x04).  Since 746b81a
+   no op code reaches it with such a type (theorem above), so Tx.verify_input no longer accepts
+   65-byte signatures with hash types 04, 80, 84, ff. *)
 Theorem C05_bip341_undefined_hash_type_refuted :
   exists t sp idx ht p,
     Bip341.valid_hash_type ht = false /\
@@ -704,16 +719,24 @@ Theorem C05_bip341_undefined_hash_type_refuted :
 Proof. exact bip341_undefined_hash_type. Qed.
 Print Assumptions C05_bip341_undefined_hash_type_refuted.
 
-(* original algorithm / BIP143 with a NON-standard hash type byte: consensus masks with 0x1f, the
-   library with 3 (witness: 0x06 — consensus hashes all outputs, the library none).  Replayed: for
-   hash types 06, 07, 86 Tx.sig_hash differs from the reference, for 04, 05, 20, 21, 22 it agrees. *)
-Theorem C05_legacy_hash_type_mask_refuted :
-  exists t ct idx code cb ht p1 p2,
-    abs_tx t = Ok ct /\ abs_script code = Ok cb /\ standard_hash_type ht = false /\
-    legacy_preimage t idx code ht = Ok (Some p1) /\ Legacy.preimage cb ct idx ht = Some p2 /\
-    p1 <> p2.
-Proof. exact legacy_hash_type_mask. Qed.
-Print Assumptions C05_legacy_hash_type_mask_refuted.
+(* original algorithm / BIP143 with a NON-standard hash type byte: consensus masks with 0x1f; the
+   library used to mask with 3 (former theorem C05_legacy_hash_type_mask_refuted, witness 0x06).
+   Repaired in /repo by 9c0cf6b; now, for EVERY hash type that fits the 4-byte field (in particular
+   every byte), the legacy and BIP143 preimages are those of the specifications *)
+Theorem C05_legacy_eq_spec_every_hash_type : forall t ct idx code cb ht,
+  in_u32 ht = true -> abs_tx t = Ok ct -> abs_script code = Ok cb ->
+  legacy_preimage t idx code ht = Ok (Legacy.preimage cb ct idx ht).
+Proof. exact legacy_eq_spec_any. Qed.
+Print Assumptions C05_legacy_eq_spec_every_hash_type.
+
+Theorem C05_bip143_eq_spec_every_hash_type : forall hash256 t ct sp idx redeem wscript s code cb ht m,
+  in_u32 ht = true -> abs_tx t = Ok ct ->
+  nth_error sp idx = Some s -> in_u64 (sp_value s) = true ->
+  bip143_script_code redeem wscript (Some (sp_script s)) = Ok code -> abs_script code = Ok cb ->
+  rsnd (bip143_preimage hash256 t sp idx redeem wscript ht m) =
+  opt_res (Bip143.preimage hash256 cb (sp_value s) ct idx ht).
+Proof. exact bip143_eq_spec_any. Qed.
+Print Assumptions C05_bip143_eq_spec_every_hash_type.
 
 (* ---------------- (8) signing: the digest signed is the digest verified ---------------- *)
 
@@ -798,6 +821,7 @@ Theorem C05_signed_p2tr_keypath_checked :
   forall hash256 sha256 hash_tapsighash hash_tapleaf xonly_ok pr t sp idx m ti s x secret ht aux sg,
   nth_error (t_ins t) idx = Some ti -> nth_error sp idx = Some s ->
   sp_script s = mk_script (p2tr_script x) -> length x = 32%nat -> has_annex (i_witness ti) = false ->
+  standard_hash_type ht = true ->
   get_sig_taproot sha256 hash_tapsighash hash_tapleaf xonly_ok pr t sp idx m secret 0 ht aux = Ok sg ->
   exists p msg s64,
     rsnd (sig_hash_bip341 sha256 hash_tapsighash hash_tapleaf xonly_ok t sp idx 0 ht m) = Ok (p, msg) /\
@@ -960,7 +984,7 @@ Theorem C05_sign_p2tr_keypath_accepts :
          t sp idx m ti s x secret ht aux sg,
   nth_error (t_ins t) idx = Some ti -> nth_error sp idx = Some s ->
   sp_script s = mk_script (p2tr_script x) -> length x = 32%nat -> xonly_ok x = true ->
-  has_annex (i_witness ti) = false -> s_cmds (i_script ti) = [] ->
+  has_annex (i_witness ti) = false -> s_cmds (i_script ti) = [] -> standard_hash_type ht = true ->
   get_sig_taproot sha256 hash_tapsighash hash_tapleaf xonly_ok pr t sp idx m secret 0 ht aux = Ok sg ->
   (forall p msg s64,
      rsnd (sig_hash_bip341 sha256 hash_tapsighash hash_tapleaf xonly_ok t sp idx 0 ht m) = Ok (p, msg) ->
@@ -1009,7 +1033,7 @@ Theorem C05_verify_input_p2tr_keypath_sound :
   annex_stripped (i_witness ti) = [sg] ->
   tx_verify_input hash256 sha256 hash_tapsighash hash_tapleaf xonly_ok pr C ripemd160 sha1 hash160
     t sp idx m = Ok OTrue ->
-  sg <> [] /\ xonly_ok x = true /\
+  sg <> [] /\ xonly_ok x = true /\ schnorr_form_ok sg = true /\
   exists d, fresh_digest hash256 sha256 hash_tapsighash hash_tapleaf xonly_ok t sp idx (snd (schnorr_split sg)) = Ok d /\
             pr_schnorr pr x (fst (schnorr_split sg)) d = Ok true.
 Proof. exact verify_input_p2tr_keypath_sound. Qed.
@@ -1174,3 +1198,13 @@ Proof.
   split; [apply same_core_upd; intros i; repeat split|].
   split; [right; repeat split | reflexivity].
 Qed.
+
+(* the former witness of the hash type mask defect: for the non-standard byte 0x06 the library's
+   legacy preimage is now the consensus preimage *)
+Example C05_ex_hash_type_06 :
+  exists ct cb p,
+    abs_tx ex_tx = Ok ct /\ abs_script (mk_script (p2pkh_script ex_h20)) = Ok cb /\
+    standard_hash_type 6 = false /\
+    legacy_preimage ex_tx 0 (mk_script (p2pkh_script ex_h20)) 6 = Ok (Some p) /\
+    Legacy.preimage cb ct 0 6 = Some p.
+Proof. exact legacy_hash_type_06. Qed.
